@@ -556,6 +556,26 @@ class SymBackend(BackendBase):
         return {"obligation": name, "reproduced": False, "tried": tried, "native": last,
                 "scenario": {"check": self.check_id, "params": self.params, "holes": self.fill(model) if model is not None else None}}
 
+    def nontermination_witness(self, why):
+        """the interpreted code exceeded the call-depth / loop bound: replay the
+        path's witness natively; if an obligation fails there (e.g. because the
+        real code raises RecursionError) it is a reproduced violation"""
+        st = self.ctx.eng.stats
+        model = self.ctx.model()
+        if model is None:
+            return
+        holes = self.fill(model)
+        res = native_client().run(self.check_id, self.params, holes)
+        if res.get("error"):
+            st.errors.append(f"bound hit ({why}); native replay failed: {res['error'][:1500]}")
+            return
+        bad = [n for n, ok in res.get("obligations", []) if not ok]
+        if bad:
+            st.failed.append({"obligation": bad[0], "reproduced": True, "native_failed": bad, "meta": res.get("meta", {}),
+                              "note": f"pysym hit its {why} bound on this path; the real code fails the obligation "
+                                      f"(non-termination / RecursionError)",
+                              "scenario": {"check": self.check_id, "params": self.params, "holes": holes}})
+
     # ---- end of path: witness + translator validation
     def finish(self):
         st = self.ctx.eng.stats
